@@ -11,4 +11,9 @@ def agrees (out : String) : Bool :=
   | [a, b] => a == b
   | _ => false
 
+/-- a transaction that the quota counted within its limit, and that has not asked since, is admitted when it
+    asks (`charged` is the ghost list of such requests, a function of the op lines only) -/
+def admittedWhenCounted (charged : List Nat) (r : Nat) (out : String) : Bool :=
+  !charged.contains r || out == "true/true"
+
 end LunarVerif.C18.Observe
